@@ -452,3 +452,75 @@ func (w *world) refusedAt(raw *consensusproto.RawRecord, at int) bool {
 	}
 	return v.ValidateRawRecord(raw, nil) != nil
 }
+
+// ---------------------------------------------------------------------------------------------
+// byte-different, semantically equal encodings of identities (another client implementation's
+// protobuf encoder may emit them; every consumer compares identities after parsing)
+
+func altEncoding(id []byte, enc string) []byte {
+	switch enc {
+	case "typeSpelled": // the default-valued Type field (Ed25519Public = 0) written out
+		if len(id) > 0 && id[0] != 0x08 {
+			return append([]byte{0x08, 0x00}, id...)
+		}
+	case "unknownField": // an extra field the key message does not define (field 15, varint)
+		return append(append([]byte(nil), id...), 0x78, 0x01)
+	}
+	return id
+}
+
+// reencode rewrites every account identity inside the record built by the client builder (author,
+// read-key recipients, removed / added / re-permissioned / accepted accounts, new owner, joiner)
+// into the given encoding and signs the result with the author's key again.
+func (w *world) reencode(raw *consensusproto.RawRecord, author, enc string) *consensusproto.RawRecord {
+	if enc == "" || enc == "canonical" {
+		return raw
+	}
+	rec := decodeRecord(raw)
+	data := &aclrecordproto.AclData{}
+	mustNoErr(data.UnmarshalVT(rec.Data), "unmarshal acl data")
+	re := func(b []byte) []byte { return altEncoding(b, enc) }
+	rkc := func(ch *aclrecordproto.AclReadKeyChange) {
+		if ch == nil {
+			return
+		}
+		for _, k := range ch.AccountKeys {
+			k.Identity = re(k.Identity)
+		}
+	}
+	for _, c := range data.AclContent {
+		switch {
+		case c.GetReadKeyChange() != nil:
+			rkc(c.GetReadKeyChange())
+		case c.GetAccountRemove() != nil:
+			ar := c.GetAccountRemove()
+			for i := range ar.Identities {
+				ar.Identities[i] = re(ar.Identities[i])
+			}
+			rkc(ar.ReadKeyChange)
+		case c.GetAccountsAdd() != nil:
+			for _, a := range c.GetAccountsAdd().Additions {
+				a.Identity = re(a.Identity)
+			}
+		case c.GetPermissionChange() != nil:
+			c.GetPermissionChange().Identity = re(c.GetPermissionChange().Identity)
+		case c.GetPermissionChanges() != nil:
+			for _, ch := range c.GetPermissionChanges().Changes {
+				ch.Identity = re(ch.Identity)
+			}
+		case c.GetRequestAccept() != nil:
+			c.GetRequestAccept().Identity = re(c.GetRequestAccept().Identity)
+		case c.GetOwnershipChange() != nil:
+			c.GetOwnershipChange().NewOwnerIdentity = re(c.GetOwnershipChange().NewOwnerIdentity)
+		case c.GetRequestJoin() != nil:
+			c.GetRequestJoin().InviteIdentity = re(c.GetRequestJoin().InviteIdentity)
+		case c.GetInviteJoin() != nil:
+			c.GetInviteJoin().Identity = re(c.GetInviteJoin().Identity)
+		}
+	}
+	nd, err := data.MarshalVT()
+	mustNoErr(err, "marshal acl data")
+	rec.Data = nd
+	rec.Identity = re(rec.Identity)
+	return signedBy(rec, w.keys[author].SignKey)
+}
